@@ -317,6 +317,24 @@ def classify (s : St) (k : EClass) : St :=
   else { s with classified := true, succeeded := false, lastClass := some k,
                 classCount := fun k' => if k' = k then s.classCount k' + 1 else s.classCount k' }
 
+def overClass (cfg : Cfg) (s : St) (k : EClass) : Bool :=
+  match cfg.perClass k with
+  | some l => decide (s.classCount k > l)
+  | none => false
+
+def overUnknown (cfg : Cfg) (s : St) : Bool :=
+  match cfg.maxUnknown with
+  | some m => decide (s.classCount .unknown > m)
+  | none => false
+
+/-- the class of the failure of the attempt in progress forbids a retry: it is not retryable, has no
+    strategy, or a per-class / UNKNOWN cap is exceeded -/
+def classStop (cfg : Cfg) (s : St) : Bool :=
+  match s.lastClass with
+  | some k => k.nonRetryable || (cfg.selectStrategy k).isNone || overClass cfg s k
+              || (k == .unknown && overUnknown cfg s)
+  | none => true
+
 /-- one exchange; `el` = the loop's elapsed time after it -/
 def step (cfg : Cfg) (s : St) (x : Req × Ans) (el : Nat) : St :=
   let afterLast := decide (s.ops ≥ cfg.maxAttempts)
@@ -337,7 +355,11 @@ def step (cfg : Cfg) (s : St) (x : Req × Ans) (el : Nat) : St :=
     { s with pollFalse := s.pollFalse || (s.strat && !b), sawAbort := s.sawAbort || b,
              mustOp := s.mustOp && !b }
   | .abortIf, _ => { s with mustOp := false }   -- only a poll answered False keeps the obligation
-  | .strategy .., _ => { s with strat := true, bad := s.bad || s.done || afterLast }
+  -- a delay is computed only for a classified failure whose class permits a retry, before the deadline
+  | .strategy .., a =>
+    { s with strat := true,
+             bad := s.bad || s.done || afterLast || !s.classified || classStop cfg s
+                    || decide (cfg.deadline ≤ el - a.dur) }
   | .budgetConsume, .granted g =>
     { s with granted := s.granted || g, refused := s.refused || !g,
              bad := s.bad || s.done || afterLast || s.granted || s.refused || !s.strat }
@@ -371,16 +393,6 @@ def stopOf (t : Trace) : Res → Option StopReason
   | .raised (.libExhausted f) =>
     if raisedBy (fun _ => true) t (.libExhausted f) then none else some f.stop
   | _ => none
-
-def overClass (cfg : Cfg) (s : St) (k : EClass) : Bool :=
-  match cfg.perClass k with
-  | some l => decide (s.classCount k > l)
-  | none => false
-
-def overUnknown (cfg : Cfg) (s : St) : Bool :=
-  match cfg.maxUnknown with
-  | some m => decide (s.classCount .unknown > m)
-  | none => false
 
 /-- each reported stop reason implies its condition -/
 def stopCond (cfg : Cfg) (s : St) (el : Nat) : StopReason → Bool
